@@ -1,5 +1,6 @@
 import Glom.Model.C20
 import Glom.Model.C20Reentry
+import Glom.Spec.C20Arg
 /-
   C20 — reference: what "behaves exactly as when run alone" means, the observation, the
   checker, and the well-formedness of the extracted facts.
@@ -22,11 +23,13 @@ structure Obs where
   pcache : List (String × String × String)          -- text, repr of the cached Path, repr of a fresh parse
   tcache : List (TKey × String × String)            -- (type, op), cached handler, fresh lookup
   deadlock : Bool
+  specSame : Bool := true                           -- a spec object shared by the calls reads afterwards as before
 
 /-- **the property on one observation**: no call hangs, every call has the outcome it has when
-    run alone, and the caches hold only fresh-parse-equal paths / fresh-lookup-equal handlers -/
+    run alone, a spec object the calls share is what it was before them, and the caches hold only
+    fresh-parse-equal paths / fresh-lookup-equal handlers -/
 def checkC20 (alone : List Out) (o : Obs) : Bool :=
-  !o.deadlock && o.outs == alone &&
+  !o.deadlock && o.outs == alone && o.specSame &&
   o.pcache.all (fun e => e.2.1 == e.2.2) && o.tcache.all (fun e => e.2.1 == e.2.2)
 
 /-- the outcome of a thread that has finished -/
@@ -41,7 +44,8 @@ def observe (reg : Reg) (s : Sys) : Obs :=
   { outs := s.threads.filterMap Prog.outcome?
     pcache := s.sh.pathCache.map fun e => (e.1, reprPath e.2, reprPath (create e.1))
     tcache := s.sh.typeCache.map fun e => (e.1, e.2, (reg e.1).getD "False")
-    deadlock := s.threads.any fun p => match p with | .done _ => false | _ => true }
+    deadlock := s.threads.any fun p => match p with | .done _ => false | _ => true
+    specSame := true }   -- an evaluation (`Ev`) is a value: in this model a spec is not state at all
 
 /-! ### facts -/
 
@@ -53,6 +57,8 @@ structure Facts where
   mutableDefaults : List (String × String) -- (function, parameter=default) for every mutable default argument
   sharedObjectWrites : List (String × String) -- (Class.method, attributes of self written) for singletons and spec classes
   argValFresh : Bool                      -- `arg_val`: `scope[MIN_MODE] = _ArgValuator().mode`
+  argModeReturns : List (String × List String) -- `_ArgValuator.mode`: type of the argument ↦ where what it returns can come from
+  argModeCacheStores : List String        -- … and what it stores in `self.cache`
   bbreprDef : String                      -- right-hand side of `bbrepr = …`
   bbreprGuard : List String               -- `_BBRepr.repr1`: its key and the statements touching `self._active`
   glomScope : List (String × String)      -- the dict literal of `glom()`'s `new_child`: key → how its value is built
@@ -88,6 +94,15 @@ def resetsCover (keys : List String) (resets : List (String × String)) : Bool :
 def resetsOf (resets : List (String × String)) : Re.Resets :=
   ⟨resets.contains ("CHILD_ERRORS", "[]"), resets.contains ("NO_PYFRAME", "pop")⟩
 
+/-- `_ArgValuator.mode`, by abstract execution of its source for each container type: a list / dict
+    argument comes back as a container built in this call (`fresh`) or as what the cache holds for it
+    (`cache`), a tuple / set / frozenset as a container built in this call; NEVER as the argument
+    itself (`spec`: the literal inside the shared spec); and the cache only ever receives containers
+    built in this call.  These are exactly the branches of the model `Arg.argEvalX false`. -/
+def expectedArgModeReturns : List (String × List String) :=
+  [("list", ["cache", "fresh"]), ("dict", ["cache", "fresh"]), ("set", ["fresh"]), ("tuple", ["fresh"]),
+   ("frozenset", ["fresh"])]
+
 def Facts.WF (f : Facts) : Bool :=
   f.maxCache ≥ 1 &&
   f.fromTextShape == expectedFromText &&
@@ -98,7 +113,8 @@ def Facts.WF (f : Facts) : Bool :=
     ("TargetRegistry._register_fuzzy_type", "_op_type_tree"),
     ("TargetRegistry.register", "_type_cache,_op_type_map"),
     ("TargetRegistry.register_op", "_op_type_map,_op_type_tree,_op_auto_map,_type_cache")] &&
-  f.argValFresh && f.bbreprDef == "recursive_repr()(_BBRepr().repr)" &&
+  f.argValFresh && f.argModeReturns == expectedArgModeReturns && f.argModeCacheStores == ["fresh"] &&
+  f.bbreprDef == "recursive_repr()(_BBRepr().repr)" &&
   f.bbreprGuard == ["key = (id(x), get_ident())", "if key in self._active", "self._active.add(key)",
     "self._active.discard(key)"] &&
   f.glomScope == [("Path", "kwargs.pop:[]"), ("Inspect", "kwargs.pop:None"), ("MODE", "name:AUTO"),
